@@ -31,7 +31,84 @@ class C05(ProgProp):
         o2l = st.tuples(offs, st.lists(st.integers(0, 100000), min_size=12, max_size=12),
                         st.lists(st.integers(-5, 70010), min_size=1, max_size=8)).map(
             lambda p: {"k": "o2l", "starts": [[o, p[1][i]] for i, o in enumerate(p[0])], "queries": p[2]})
-        return st.one_of(base, base, base, base, host_case(), o2l)
+        names = self.table_names()
+        from vf.gen import tables as gt
+
+        @st.composite
+        def tabfam(draw):
+            name = draw(st.sampled_from(names))
+            c = draw(gt.lnotab_cases(self.table_vt(name)))
+            c.update({"k": "tabfam", "opc": name})
+            return c
+        return st.one_of(base, base, base, base, host_case(), o2l, tabfam())
+
+    @staticmethod
+    def table_vt(name):
+        import re
+        m = re.match(r"^(\d)\.(\d+)", name)
+        return (int(m.group(1)), int(m.group(2)))
+
+    def table_names(self):
+        """every opcode table (all versions and PyPy variants) whose code objects carry an lnotab: 1.5 - 3.9"""
+        from vf import refworker as rw
+        x = rw.xd()
+        return sorted(k for k in x.op_imports.op_imports if isinstance(k, str) and (1, 5) <= self.table_vt(k) < (3, 10))
+
+    def judge_tabfam(self, case, ctx):
+        """A drawn lnotab decoded by the findlinestarts of ANY table against the interpreter of its lnotab family:
+        line deltas are unsigned before 3.6 (reference 2.7), signed in 3.6/3.7 (reference 3.6/3.7), 3.8/3.9 own."""
+        from vf import refworker as rw
+        from vf.run import Result
+        res = Result()
+        name = case.get("opc")
+        if name not in self.table_names():
+            res.reject = "malformed-case"
+            return res
+        vt = self.table_vt(name)
+        fam = "2.7" if vt < (3, 6) else ("%d.%d" % vt)
+        try:
+            n = int(case["codelen"])
+            table = rw.unhx(case["table"])
+            first = int(case["first"])
+        except Exception:
+            res.reject = "malformed-case"
+            return res
+        if n < 1 or n > 20000 or len(table) % 2 or (vt >= (3, 6) and (n % 2 or any(b % 2 for b in table[0::2]))):
+            res.reject = "malformed-table-case"
+            return res
+        tab = self.tables(ctx, fam)
+        nop = tab.opmap["NOP"]
+        unit = bytes([nop, 0]) if tab.v >= (3, 6) else bytes([nop])
+        r = ctx.pool.ref(fam).call("mkcode", fields={"co_firstlineno": ["i", str(first)], "co_linetable": ["y", case["table"]],
+                                                      "co_code": ["y", rw.hx((unit * n)[:n])]}, dis=True)
+        if "reject" in r:
+            res.reject = "compiler-rejects:" + r["reject"].split(":")[0]
+            return res
+        want = r["dis"][0]["linestarts"]
+        x = rw.xd()
+        opc = x.op_imports.op_imports[name]
+        kw = dict(co_argcount=0, co_nlocals=0, co_stacksize=1, co_flags=0, co_code=b"\x09" * n, co_consts=(), co_names=(),
+                  co_varnames=(), co_filename="f.py", co_name="n", co_firstlineno=first, co_lnotab=table, co_freevars=(),
+                  co_cellvars=(), version_triple=vt + (0,))
+        if vt >= (3, 0):
+            kw["co_kwonlyargcount"] = 0
+        if vt >= (3, 8):
+            kw["co_posonlyargcount"] = 0
+        res.classes = ["source:lnotab-any-table", "table:" + name]
+        res.sample = {"table": name, "family_reference": fam, "lnotab_hex": case["table"], "first_line": first, "code_len": n}
+        res.key = ["tabfam", name, case["table"], first, n]
+        res.nontrivial = any(b >= 128 for b in table[1::2])
+        try:
+            co = x.codetype.to_portable(**kw)
+            got = [[a, b] for a, b in opc.findlinestarts(co)]
+        except Exception as e:
+            res.fail("C05|any-table|%s|raised|%s" % (name, type(e).__name__), "table %s: findlinestarts raised %s: %s" % (name, type(e).__name__, e))
+            return res
+        if got != want:
+            res.fail("C05|any-table|%s|%s" % ("pypy" if "pypy" in name else "cpython", "<3.6" if vt < (3, 6) else "%d.%d" % vt),
+                     "table %s, lnotab %s, first line %d, %d bytes of code: findlinestarts %s; Python %s (same lnotab rules) %s" % (
+                         name, case["table"], first, n, got[:8], fam, want[:8]))
+        return res
 
     def judge_o2l(self, case, ctx):
         from vf import refworker as rw
@@ -69,6 +146,8 @@ class C05(ProgProp):
     def judge(self, case, ctx):
         if case.get("k") == "o2l":
             return self.judge_o2l(case, ctx)
+        if case.get("k") == "tabfam":
+            return self.judge_tabfam(case, ctx)
         if case.get("k") != "host":
             return super().judge(case, ctx)
         from vf.pool import HOSTS
